@@ -48,8 +48,8 @@ inductive Region where
 deriving DecidableEq, Repr
 
 def Region.beq : Region → Region → Bool
-  | .arg a, .arg b => a == b
-  | .sym a, .sym b => a == b
+  | .arg a, .arg b => Nat.beq a b
+  | .sym a, .sym b => Nat.beq a b
   | _, _ => false
 
 instance : BEq Region := ⟨Region.beq⟩
@@ -67,8 +67,8 @@ structure Access where
   write : Bool
 deriving DecidableEq, Repr
 
-def Access.beq (a b : Access) : Bool :=
-  a.region == b.region && a.off == b.off && a.width == b.width && a.write == b.write
+def Access.beq : Access → Access → Bool
+  | ⟨r, o, w, k⟩, ⟨r', o', w', k'⟩ => r.beq r' && Nat.beq o o' && Nat.beq w w' && (k == k')
 
 instance : BEq Access := ⟨Access.beq⟩
 
@@ -96,30 +96,59 @@ inductive Cond where
   | lt | le | gt | ge | eq | ne
 deriving DecidableEq, Repr
 
+/-- two bits -/
+inductive Q where
+  | a | b | c | d
+deriving DecidableEq, Repr
+
+/-- a general-purpose register number 0..15 as (n / 4, n % 4): the register file is a 4 × 4 tree -/
+structure G where
+  hi : Q
+  lo : Q
+deriving DecidableEq, Repr
+
+def Q.ofNat' (n : Nat) : Q :=
+  if n == 0 then .a else if n == 1 then .b else if n == 2 then .c else .d
+
+def Q.toNat : Q → Nat
+  | .a => 0 | .b => 1 | .c => 2 | .d => 3
+
+def G.ofNat (n : Nat) : G := ⟨Q.ofNat' (n / 4), Q.ofNat' (n % 4)⟩
+def G.toNat (g : G) : Nat := 4 * g.hi.toNat + g.lo.toNat
+
+/-- operand width of the integer instructions -/
+inductive Wd where
+  | b1 | b2 | b4 | b8
+deriving DecidableEq, Repr
+
+def Wd.bytes : Wd → Nat
+  | .b1 => 1 | .b2 => 2 | .b4 => 4 | .b8 => 8
+
 inductive COpd where
-  | gpr (n : Nat)
+  | gpr (g : G)
   | kreg (n : Nat)
   | vec
-  | imm (v : Nat)                                                   -- already reduced mod 2^64
-  | mem (base : Nat) (idx : Option Nat) (scale : Nat) (disp : Nat)  -- gpr numbers; disp reduced mod 2^64
-  | symMem (id : Nat) (off : Nat)                                   -- a load from read-only data
-  | symAddr (id : Nat) (off : Nat)                                  -- the address of read-only data
+  | imm (v : Nat)                                                    -- already reduced mod 2^64
+  | mem (base : G) (disp : Nat)                                      -- disp(base); disp reduced mod 2^64
+  | memIdx (base idx : G) (scale : Nat) (disp : Nat)                 -- disp(base)(idx*scale)
+  | symMem (id : Nat) (off : Nat)                                    -- a load from read-only data
+  | symAddr (id : Nat) (off : Nat)                                   -- the address of read-only data
   | frame (off : Nat)
   | bad
 deriving DecidableEq, Repr
 
 inductive CI where
   | skip                                                  -- pure vector instruction / NOP (removed by `compile`)
-  | mov (w : Nat) (src dst : COpd)
-  | lea (src : COpd) (dst : Nat)
-  | alu (op : Alu) (w : Nat) (src dst : COpd)
+  | mov (w : Wd) (src dst : COpd)
+  | lea (src : COpd) (dst : G)
+  | alu (op : Alu) (w : Wd) (src dst : COpd)
   | cmp (a b : COpd)
   | kmov (src : COpd) (k : Nat)
   | jcc (c : Cond) (chunk off : Nat)                      -- before target resolution: chunk = target pc, off = 0
   | jmp (chunk off : Nat)
   | ret
   | vmem (w elt : Nat) (mask : Option Nat) (ops : List COpd)  -- vector instruction with a memory operand (last = destination)
-  | clobber (r : Nat)                                     -- vector instruction writing a general-purpose register
+  | clobber (r : G)                                       -- vector instruction writing a general-purpose register
   | unsupported
 deriving DecidableEq, Repr
 
@@ -138,13 +167,14 @@ def symIndex (syms : List String) (name : String) : Nat :=
   syms.findIdx (· == name)
 
 def cOpd (syms : List String) : Opd → COpd
-  | .reg (.gpr n) => .gpr n
+  | .reg (.gpr n) => if n < 16 then .gpr (G.ofNat n) else .bad
   | .reg (.vec _) => .vec
   | .reg (.k n) => .kreg n
   | .regs _ => .bad
   | .imm v => .imm (wordOfInt v)
-  | .mem (.gpr b) none s d => .mem b none s (wordOfInt d)
-  | .mem (.gpr b) (some (.gpr i)) s d => .mem b (some i) s (wordOfInt d)
+  | .mem (.gpr b) none _ d => if b < 16 then .mem (G.ofNat b) (wordOfInt d) else .bad
+  | .mem (.gpr b) (some (.gpr i)) s d =>
+      if b < 16 && i < 16 then .memIdx (G.ofNat b) (G.ofNat i) s (wordOfInt d) else .bad
   | .mem _ _ _ _ => .bad
   | .sym name off =>
       let i := symIndex syms name
@@ -157,11 +187,16 @@ def cOpd (syms : List String) : Opd → COpd
 
 def COpd.isMem : COpd → Bool
   | .mem .. => true
+  | .memIdx .. => true
   | .symMem .. => true
   | _ => false
 
 def COpd.isBad : COpd → Bool
   | .bad => true
+  | _ => false
+
+def COpd.isVec : COpd → Bool
+  | .vec => true
   | _ => false
 
 /-- vector register, immediate or opmask register -/
@@ -228,23 +263,23 @@ def condOf (mn : String) : Option Cond :=
   else if mn == "JGE" then some .ge
   else none
 
-def aluOf (mn : String) : Option (Alu × Nat) :=
-  if mn == "ADDQ" then some (.add, 8)
-  else if mn == "SUBQ" then some (.sub, 8)
-  else if mn == "SHRQ" then some (.shr, 8)
-  else if mn == "ORB" then some (.or, 1)
-  else if mn == "SHLQ" then some (.shl, 8)
-  else if mn == "ANDQ" then some (.and, 8)
-  else if mn == "ORQ" then some (.or, 8)
-  else if mn == "XORQ" then some (.xor, 8)
-  else if mn == "XORB" then some (.xor, 1)
+def aluOf (mn : String) : Option (Alu × Wd) :=
+  if mn == "ADDQ" then some (.add, .b8)
+  else if mn == "SUBQ" then some (.sub, .b8)
+  else if mn == "SHRQ" then some (.shr, .b8)
+  else if mn == "ORB" then some (.or, .b1)
+  else if mn == "SHLQ" then some (.shl, .b8)
+  else if mn == "ANDQ" then some (.and, .b8)
+  else if mn == "ORQ" then some (.or, .b8)
+  else if mn == "XORQ" then some (.xor, .b8)
+  else if mn == "XORB" then some (.xor, .b1)
   else none
 
-def movOf (mn : String) : Option Nat :=
-  if mn == "MOVL" then some 4
-  else if mn == "MOVQ" then some 8
-  else if mn == "MOVB" then some 1
-  else if mn == "MOVW" then some 2
+def movOf (mn : String) : Option Wd :=
+  if mn == "MOVL" then some .b4
+  else if mn == "MOVQ" then some .b8
+  else if mn == "MOVB" then some .b1
+  else if mn == "MOVW" then some .b2
   else none
 
 /-- Resolve one instruction (jump targets still as byte offsets).  The tests are ordered so that the
@@ -266,7 +301,7 @@ def compile1 (syms : List String) (i : Instr) : CInstr :=
     if ops.any COpd.isBad then mk .unsupported
     else if ops.all COpd.isVecish then
       (if isPureVec i.mn then mk .skip else mk .unsupported)
-    else if ops.any COpd.isMem && ops.any (fun o => o == .vec) && !(i.mn == "MOVL") && !(i.mn == "MOVQ") then
+    else if ops.any COpd.isMem && ops.any COpd.isVec && !(i.mn == "MOVL") && !(i.mn == "MOVQ") then
       -- vector instruction with a memory operand
       (match vecMoveElt i.mn with
        | some elt => mk (.vmem i.vw elt (firstKreg ops) ops)
@@ -398,11 +433,41 @@ structure Rec where
   acc : Access
 deriving Repr
 
-def getReg (rs : List Val) (n : Nat) : Val := rs.getD n .unk
+/-- four registers -/
+structure R4 where
+  x0 : Val
+  x1 : Val
+  x2 : Val
+  x3 : Val
+
+/-- the 16 general-purpose registers -/
+structure Regs where
+  q0 : R4
+  q1 : R4
+  q2 : R4
+  q3 : R4
+
+def R4.get : R4 → Q → Val
+  | ⟨x0, x1, x2, x3⟩, q => match q with | .a => x0 | .b => x1 | .c => x2 | .d => x3
+
+def R4.set : R4 → Q → Val → R4
+  | ⟨x0, x1, x2, x3⟩, q, v =>
+    match q with
+    | .a => ⟨v, x1, x2, x3⟩ | .b => ⟨x0, v, x2, x3⟩ | .c => ⟨x0, x1, v, x3⟩ | .d => ⟨x0, x1, x2, v⟩
+
+def Regs.get : Regs → G → Val
+  | ⟨q0, q1, q2, q3⟩, ⟨h, l⟩ =>
+    match h with | .a => q0.get l | .b => q1.get l | .c => q2.get l | .d => q3.get l
+
+def Regs.set : Regs → G → Val → Regs
+  | ⟨q0, q1, q2, q3⟩, ⟨h, l⟩, v =>
+    match h with
+    | .a => ⟨q0.set l v, q1, q2, q3⟩ | .b => ⟨q0, q1.set l v, q2, q3⟩
+    | .c => ⟨q0, q1, q2.set l v, q3⟩ | .d => ⟨q0, q1, q2, q3.set l v⟩
 
 def lookupFrame : List (Nat × Val) → Nat → Option Val
   | [], _ => none
-  | (k, v) :: t, off => if k == off then some v else lookupFrame t off
+  | (k, v) :: t, off => if Nat.beq k off then some v else lookupFrame t off
 
 def Val.add : Val → Val → Val
   | .int a, .int b => .int ((a + b) % W)
@@ -427,11 +492,12 @@ def aluEval (op : Alu) (dst src : Val) : Val :=
   | .shl => match dst, src with | .int a, .int b => .int ((a <<< (b % 64)) % W) | _, _ => .unk
   | .shr => match dst, src with | .int a, .int b => .int (a >>> (b % 64)) | _, _ => .unk
 
-/-- value written to a general-purpose register by a `w`-byte move -/
-def truncTo (w : Nat) (v : Val) : Val :=
-  if w == 8 then v
-  else if w == 4 then (match v with | .int n => .int (n % 4294967296) | _ => .unk)
-  else .unk
+/-- value written to a general-purpose register by a move of width `w` -/
+def truncTo (w : Wd) (v : Val) : Val :=
+  match w with
+  | .b8 => v
+  | .b4 => (match v with | .int n => .int (n % 4294967296) | _ => .unk)
+  | _ => .unk
 
 /-- signed comparison of two 64-bit words -/
 def sLt (a b : Nat) : Bool := Nat.blt ((a + 9223372036854775808) % W) ((b + 9223372036854775808) % W)
@@ -443,22 +509,26 @@ def Cond.eval (c : Cond) (a b : Nat) : Bool :=
   | .le => !(sLt b a)
   | .gt => sLt b a
   | .ge => !(sLt a b)
-  | .eq => a == b
-  | .ne => !(a == b)
+  | .eq => Nat.beq a b
+  | .ne => !(Nat.beq a b)
 
-/-- flags after `CMPQ a, b` / `SUBQ b, a` -/
-def flagsOf : Val → Val → Option (Nat × Nat)
-  | .int x, .int y => some (x, y)
-  | _, _ => none
+/-- flags: unknown, or the operands of the last `CMPQ a, b` / `SUBQ b, a` -/
+inductive Flags where
+  | unknown
+  | cmp (a b : Nat)
+
+def flagsOf : Val → Val → Flags
+  | .int x, .int y => .cmp x y
+  | _, _ => .unknown
 
 /-- address denoted by a memory operand -/
-def addrOf (regs : List Val) : COpd → Option (Region × Nat)
-  | .mem b none _ d =>
-      (match getReg regs b with
+def addrOf (regs : Regs) : COpd → Option (Region × Nat)
+  | .mem b d =>
+      (match regs.get b with
        | .ptr r o => some (r, (o + d) % W)
        | _ => none)
-  | .mem b (some i) s d =>
-      (match getReg regs b, getReg regs i with
+  | .memIdx b i s d =>
+      (match regs.get b, regs.get i with
        | .ptr r o, .int x => some (r, (o + d + x * s) % W)
        | _, _ => none)
   | .symMem id off => some (.sym id, off)
@@ -470,14 +540,18 @@ inductive Src where
   | load (r : Region) (off : Nat)
   | err (k : ErrKind)
 
-def evalSrc (regs : List Val) (frame : List (Nat × Val)) (frameEnd w : Nat) : COpd → Src
-  | .gpr n => .val (getReg regs n)
+def evalSrc (regs : Regs) (frame : List (Nat × Val)) (frameEnd : Nat) (w : Wd) : COpd → Src
+  | .gpr g => .val (regs.get g)
   | .imm v => .val (.int v)
+  | .mem b d =>
+      (match regs.get b with
+       | .ptr r o => .load r ((o + d) % W)
+       | _ => .err .unknownAddr)
   | .vec => .val .unk
   | .kreg _ => .err .badOperand
   | .symAddr id off => .val (.ptr (.sym id) off)
   | .frame off =>
-      if off + w ≤ frameEnd then
+      if Nat.ble (off + w.bytes) frameEnd then
         match lookupFrame frame off with
         | some v => .val (truncTo w v)
         | none => .err .badFrame
@@ -490,25 +564,29 @@ def evalSrc (regs : List Val) (frame : List (Nat × Val)) (frameEnd w : Nat) : C
 
 /-- a destination operand -/
 inductive Dst where
-  | reg (n : Nat)
+  | reg (g : G)
   | store (r : Region) (off : Nat)
   | frame (off : Nat)
   | vec
   | err (k : ErrKind)
 
-def evalDst (regs : List Val) (frameEnd w : Nat) : COpd → Dst
-  | .gpr n => .reg n
+def evalDst (regs : Regs) (frameEnd : Nat) (w : Wd) : COpd → Dst
+  | .gpr g => .reg g
   | .vec => .vec
-  | .frame off => if off + w ≤ frameEnd then .frame off else .err .badFrame
-  | .mem b i s d =>
-      (match addrOf regs (.mem b i s d) with
+  | .mem b d =>
+      (match regs.get b with
+       | .ptr r o => .store r ((o + d) % W)
+       | _ => .err .unknownAddr)
+  | .frame off => if Nat.ble (off + w.bytes) frameEnd then .frame off else .err .badFrame
+  | .memIdx b i s d =>
+      (match addrOf regs (.memIdx b i s d) with
        | some (r, off) => .store r off
        | none => .err .unknownAddr)
   | _ => .err .badOperand
 
 def lowBitAux : Nat → Nat → Nat → Nat
   | 0, _, i => i
-  | f + 1, m, i => if m % 2 == 1 then i else lowBitAux f (m / 2) (i + 1)
+  | f + 1, m, i => if Nat.beq (m % 2) 1 then i else lowBitAux f (m / 2) (i + 1)
 
 /-- index of the lowest set bit of a nonzero mask (< 2^64) -/
 def lowBit (m : Nat) : Nat := lowBitAux 64 m 0
@@ -518,7 +596,7 @@ def lowBit (m : Nat) : Nat := lowBitAux 64 m 0
 def maskedRange (w elt m : Nat) : Option (Nat × Nat) :=
   let lanes := w / elt
   let bits := m % (2 ^ lanes)
-  if bits == 0 then none
+  if Nat.beq bits 0 then none
   else
     let lo := lowBit bits
     let hi := Nat.log2 bits
@@ -526,7 +604,7 @@ def maskedRange (w elt m : Nat) : Option (Nat × Nat) :=
 
 /-- record the memory operands of a vector instruction (the last operand is the destination);
     `none` = an address or an opmask value is unknown -/
-def vecAccesses (regs kregs : List Val) (pc line w elt : Nat) (mask : Option Nat) :
+def vecAccesses (regs : Regs) (kregs : List Val) (pc line w elt : Nat) (mask : Option Nat) :
     List COpd → List Rec → Option (List Rec)
   | [], acc => some acc
   | o :: rest, acc =>
@@ -538,7 +616,7 @@ def vecAccesses (regs kregs : List Val) (pc line w elt : Nat) (mask : Option Nat
           match mask with
           | none => vecAccesses regs kregs pc line w elt mask rest (⟨pc, line, ⟨r, off, w, isW⟩⟩ :: acc)
           | some k =>
-            match getReg kregs k with
+            match kregs.getD k .unk with
             | .int m =>
               (match maskedRange w elt m with
                | none => vecAccesses regs kregs pc line w elt mask rest acc
@@ -554,29 +632,28 @@ def seek (p : Prog) (chunk off : Nat) : Option (List CInstr × List (List CInstr
   | c :: rest => some (c.drop off, rest)
 
 /-- outcome of a conditional jump: `some true` = taken; `none` = flags unknown and no decision left -/
-def decideBranch (c : Cond) (flags : Option (Nat × Nat)) (oracle : List Bool) : Option (Bool × List Bool) :=
+def decideBranch (c : Cond) (flags : Flags) (oracle : List Bool) : Option (Bool × List Bool) :=
   match flags with
-  | some (a, b) => some (c.eval a b, oracle)
-  | none =>
+  | .cmp a b => some (c.eval a b, oracle)
+  | .unknown =>
     match oracle with
     | taken :: rest => some (taken, rest)
     | [] => none
 
-/-! The state of a run is the tuple (general-purpose registers, opmask registers, flags = operands of the
-    last CMPQ/SUBQ or `none`, frame valuation, remaining oracle decisions, recorded accesses most recent
-    first).  It is passed around as separate arguments and the instruction semantics are split into many small
-    definitions: the kernel instantiates the whole body of a definition at every call, so small bodies are
-    what makes `decide +kernel` affordable. -/
+/-! The state of a run is the tuple (general-purpose registers, opmask registers, flags, frame valuation,
+    remaining oracle decisions, recorded accesses most recent first).  It is passed around as separate
+    arguments and the instruction semantics are split into many small definitions with few reduction steps
+    each: that is what makes `decide +kernel` affordable. -/
 
 inductive StepR where
-  | next (regs kregs : List Val) (flags : Option (Nat × Nat)) (frame : List (Nat × Val))
+  | next (regs : Regs) (kregs : List Val) (flags : Flags) (frame : List (Nat × Val))
       (oracle : List Bool) (acc : List Rec)
   | goto (chunk off : Nat) (oracle : List Bool)      -- a taken jump: nothing else changes
   | done
   | err (k : ErrKind)
 
 section Step
-variable (frameEnd pc line : Nat) (regs kregs : List Val) (flags : Option (Nat × Nat))
+variable (frameEnd pc line : Nat) (regs : Regs) (kregs : List Val) (flags : Flags)
   (frame : List (Nat × Val)) (oracle : List Bool) (acc : List Rec)
 
 def stepJcc (c : Cond) (ch off : Nat) : StepR :=
@@ -585,80 +662,84 @@ def stepJcc (c : Cond) (ch off : Nat) : StepR :=
   | some (false, oracle') => .next regs kregs flags frame oracle' acc
   | some (true, oracle') => .goto ch off oracle'
 
-def movVal (w : Nat) (v : Val) (d : COpd) : StepR :=
+def movVal (w : Wd) (v : Val) (d : COpd) : StepR :=
   match evalDst regs frameEnd w d with
-  | .reg n => .next (regs.set n (truncTo w v)) kregs flags frame oracle acc
-  | .store r off => .next regs kregs flags frame oracle (⟨pc, line, ⟨r, off, w, true⟩⟩ :: acc)
+  | .reg g => .next (regs.set g (truncTo w v)) kregs flags frame oracle acc
+  | .store r off => .next regs kregs flags frame oracle (⟨pc, line, ⟨r, off, w.bytes, true⟩⟩ :: acc)
   | .frame off => .next regs kregs flags ((off, truncTo w v) :: frame) oracle acc
   | .vec => .next regs kregs flags frame oracle acc
   | .err k => .err k
 
-def movLoad (w : Nat) (r : Region) (off : Nat) (d : COpd) : StepR :=
-  match evalDst regs frameEnd w d with
-  | .reg n => .next (regs.set n .unk) kregs flags frame oracle (⟨pc, line, ⟨r, off, w, false⟩⟩ :: acc)
-  | .vec => .next regs kregs flags frame oracle (⟨pc, line, ⟨r, off, w, false⟩⟩ :: acc)
-  | .err k => .err k
+def movLoad (w : Wd) (r : Region) (off : Nat) (d : COpd) : StepR :=
+  match d with
+  | .gpr g => .next (regs.set g .unk) kregs flags frame oracle (⟨pc, line, ⟨r, off, w.bytes, false⟩⟩ :: acc)
+  | .vec => .next regs kregs flags frame oracle (⟨pc, line, ⟨r, off, w.bytes, false⟩⟩ :: acc)
   | _ => .err .badOperand
 
-def stepMov (w : Nat) (s d : COpd) : StepR :=
+def stepMov (w : Wd) (s d : COpd) : StepR :=
   match evalSrc regs frame frameEnd w s with
-  | .err k => .err k
+  | .load r off => movLoad pc line regs kregs flags frame oracle acc w r off d
   | .val v => movVal frameEnd pc line regs kregs flags frame oracle acc w v d
-  | .load r off => movLoad frameEnd pc line regs kregs flags frame oracle acc w r off d
+  | .err k => .err k
 
-def leaIdx (n b i sc disp : Nat) : StepR :=
-  match getReg regs b, getReg regs i with
+def leaIdx (n b i : G) (sc disp : Nat) : StepR :=
+  match regs.get b, regs.get i with
   | .ptr r o, .int x => .next (regs.set n (.ptr r ((o + disp + x * sc) % W))) kregs flags frame oracle acc
   | .int x, .int y => .next (regs.set n (.int ((x + disp + y * sc) % W))) kregs flags frame oracle acc
   | _, _ => .next (regs.set n .unk) kregs flags frame oracle acc
 
-def leaBase (n b disp : Nat) : StepR :=
-  match getReg regs b with
+def leaBase (n b : G) (disp : Nat) : StepR :=
+  match regs.get b with
   | .ptr r o => .next (regs.set n (.ptr r ((o + disp) % W))) kregs flags frame oracle acc
   | .int x => .next (regs.set n (.int ((x + disp) % W))) kregs flags frame oracle acc
   | .unk => .next (regs.set n .unk) kregs flags frame oracle acc
 
-def stepLea (s : COpd) (n : Nat) : StepR :=
+def stepLea (s : COpd) (n : G) : StepR :=
   match s with
   | .symAddr id off => .next (regs.set n (.ptr (.sym id) off)) kregs flags frame oracle acc
-  | .mem b none _ disp => leaBase regs kregs flags frame oracle acc n b disp
-  | .mem b (some i) sc disp => leaIdx regs kregs flags frame oracle acc n b i sc disp
+  | .mem b disp => leaBase regs kregs flags frame oracle acc n b disp
+  | .memIdx b i sc disp => leaIdx regs kregs flags frame oracle acc n b i sc disp
   | _ => .err .badOperand
 
-def aluVal (op : Alu) (w : Nat) (sv : Val) (d : COpd) : StepR :=
+def aluReg (op : Alu) (w : Wd) (sv : Val) (g : G) : StepR :=
+  match w with
+  | .b8 =>
+      (match op with
+       | .sub => .next (regs.set g ((regs.get g).sub sv)) kregs (flagsOf (regs.get g) sv) frame oracle acc
+       | _ => .next (regs.set g (aluEval op (regs.get g) sv)) kregs .unknown frame oracle acc)
+  | _ => .next (regs.set g .unk) kregs .unknown frame oracle acc
+
+def aluVal (op : Alu) (w : Wd) (sv : Val) (d : COpd) : StepR :=
   match evalDst regs frameEnd w d with
-  | .reg n =>
-      .next (regs.set n (if w == 8 then aluEval op (getReg regs n) sv else .unk)) kregs
-        (if w == 8 && op == .sub then flagsOf (getReg regs n) sv else none) frame oracle acc
+  | .reg g => aluReg regs kregs frame oracle acc op w sv g
   | .store r off =>
-      .next regs kregs none frame oracle
-        (⟨pc, line, ⟨r, off, w, true⟩⟩ :: ⟨pc, line, ⟨r, off, w, false⟩⟩ :: acc)
+      .next regs kregs .unknown frame oracle
+        (⟨pc, line, ⟨r, off, w.bytes, true⟩⟩ :: ⟨pc, line, ⟨r, off, w.bytes, false⟩⟩ :: acc)
   | .err k => .err k
   | _ => .err .badOperand
 
-def aluLoad (w : Nat) (r : Region) (off : Nat) (d : COpd) : StepR :=
-  match evalDst regs frameEnd w d with
-  | .reg n => .next (regs.set n .unk) kregs none frame oracle (⟨pc, line, ⟨r, off, w, false⟩⟩ :: acc)
-  | .err k => .err k
+def aluLoad (w : Wd) (r : Region) (off : Nat) (d : COpd) : StepR :=
+  match d with
+  | .gpr g => .next (regs.set g .unk) kregs .unknown frame oracle (⟨pc, line, ⟨r, off, w.bytes, false⟩⟩ :: acc)
   | _ => .err .badOperand
 
-def stepAlu (op : Alu) (w : Nat) (s d : COpd) : StepR :=
+def stepAlu (op : Alu) (w : Wd) (s d : COpd) : StepR :=
   match evalSrc regs frame frameEnd w s with
-  | .err k => .err k
   | .val sv => aluVal frameEnd pc line regs kregs frame oracle acc op w sv d
-  | .load r off => aluLoad frameEnd pc line regs kregs frame oracle acc w r off d
+  | .load r off => aluLoad pc line regs kregs frame oracle acc w r off d
+  | .err k => .err k
 
 def stepCmp (a b : COpd) : StepR :=
-  match evalSrc regs frame frameEnd 8 a, evalSrc regs frame frameEnd 8 b with
+  match evalSrc regs frame frameEnd .b8 a, evalSrc regs frame frameEnd .b8 b with
   | .val av, .val bv => .next regs kregs (flagsOf av bv) frame oracle acc
-  | .load r off, .val _ => .next regs kregs none frame oracle (⟨pc, line, ⟨r, off, 8, false⟩⟩ :: acc)
-  | .val _, .load r off => .next regs kregs none frame oracle (⟨pc, line, ⟨r, off, 8, false⟩⟩ :: acc)
+  | .load r off, .val _ => .next regs kregs .unknown frame oracle (⟨pc, line, ⟨r, off, 8, false⟩⟩ :: acc)
+  | .val _, .load r off => .next regs kregs .unknown frame oracle (⟨pc, line, ⟨r, off, 8, false⟩⟩ :: acc)
   | .err k, _ => .err k
   | _, .err k => .err k
   | _, _ => .err .badOperand
 
 def stepKmov (s : COpd) (k : Nat) : StepR :=
-  match evalSrc regs frame frameEnd 8 s with
+  match evalSrc regs frame frameEnd .b8 s with
   | .val (.int n) => .next regs (kregs.set k (.int (n % 65536))) flags frame oracle acc
   | .val _ => .next regs (kregs.set k .unk) flags frame oracle acc
   | .err e => .err e
@@ -675,33 +756,35 @@ def stepVmem (w elt : Nat) (mask : Option Nat) (ops : List COpd) : StepR :=
 /-- one instruction -/
 def step (ci : CI) : StepR :=
   match ci with
+  | .mov w s d => stepMov frameEnd pc line regs kregs flags frame oracle acc w s d
+  | .alu op w s d => stepAlu frameEnd pc line regs kregs frame oracle acc op w s d
+  | .cmp a b => stepCmp frameEnd pc line regs kregs frame oracle acc a b
+  | .jcc c ch off => stepJcc regs kregs flags frame oracle acc c ch off
+  | .jmp ch off => .goto ch off oracle
+  | .vmem w elt mask ops => stepVmem pc line regs kregs flags frame oracle acc w elt mask ops
+  | .lea s n => stepLea regs kregs flags frame oracle acc s n
+  | .kmov s k => stepKmov frameEnd regs kregs flags frame oracle acc s k
+  | .clobber r => .next (regs.set r .unk) kregs flags frame oracle acc
   | .skip => .next regs kregs flags frame oracle acc
   | .ret => .done
   | .unsupported => .err .unsupported
-  | .jmp ch off => .goto ch off oracle
-  | .jcc c ch off => stepJcc regs kregs flags frame oracle acc c ch off
-  | .clobber r => .next (regs.set r .unk) kregs flags frame oracle acc
-  | .mov w s d => stepMov frameEnd pc line regs kregs flags frame oracle acc w s d
-  | .lea s n => stepLea regs kregs flags frame oracle acc s n
-  | .alu op w s d => stepAlu frameEnd pc line regs kregs frame oracle acc op w s d
-  | .cmp a b => stepCmp frameEnd pc line regs kregs frame oracle acc a b
-  | .kmov s k => stepKmov frameEnd regs kregs flags frame oracle acc s k
-  | .vmem w elt mask ops => stepVmem pc line regs kregs flags frame oracle acc w elt mask ops
 
 end Step
 
 /-- The interpreter loop; control = (rest of the current chunk, following chunks). -/
 def runLoop (p : Prog) (frameEnd : Nat) : Nat → List CInstr → List (List CInstr) →
-    List Val → List Val → Option (Nat × Nat) → List (Nat × Val) → List Bool → List Rec →
-    Except Err (List Rec)
+    Regs → List Val → Flags → List (Nat × Val) → List Bool → List Rec → Except Err (List Rec)
   | 0, _, _, _, _, _, _, _, _ => .error ⟨.fuel, 0, 0⟩
-  | _ + 1, [], [], _, _, _, _, _, _ => .error ⟨.fellOff, 0, 0⟩
-  | f + 1, [], c :: rest, regs, kregs, flags, frame, oracle, acc =>
-      runLoop p frameEnd f c rest regs kregs flags frame oracle acc
-  | f + 1, ⟨ci, pc, line⟩ :: cur, rest, regs, kregs, flags, frame, oracle, acc =>
+  | f + 1, cur, rest, regs, kregs, flags, frame, oracle, acc =>
+    match cur with
+    | [] =>
+        (match rest with
+         | [] => .error ⟨.fellOff, 0, 0⟩
+         | c :: rest' => runLoop p frameEnd f c rest' regs kregs flags frame oracle acc)
+    | ⟨ci, pc, line⟩ :: cur' =>
       match step frameEnd pc line regs kregs flags frame oracle acc ci with
       | .next regs' kregs' flags' frame' oracle' acc' =>
-          runLoop p frameEnd f cur rest regs' kregs' flags' frame' oracle' acc'
+          runLoop p frameEnd f cur' rest regs' kregs' flags' frame' oracle' acc'
       | .goto ch off oracle' =>
           (match seek p ch off with
            | some (c, r) => runLoop p frameEnd f c r regs kregs flags frame oracle' acc
@@ -709,7 +792,8 @@ def runLoop (p : Prog) (frameEnd : Nat) : Nat → List CInstr → List (List CIn
       | .done => .ok acc.reverse
       | .err k => .error ⟨k, pc, line⟩
 
-def initRegs : List Val := List.replicate 16 .unk
+def unk4 : R4 := ⟨.unk, .unk, .unk, .unk⟩
+def initRegs : Regs := ⟨unk4, unk4, unk4, unk4⟩
 def initKregs : List Val := List.replicate 8 .unk
 
 /-- Run a resolved routine from its entry to RET.
@@ -719,7 +803,7 @@ def run (p : Prog) (frame : List (Nat × Val)) (argBytes : Nat) (oracle : List B
     Except Err (List Rec) :=
   match p with
   | [] => .error ⟨.fellOff, 0, 0⟩
-  | c :: rest => runLoop p (8 + argBytes) fuel c rest initRegs initKregs none frame oracle []
+  | c :: rest => runLoop p (8 + argBytes) fuel c rest initRegs initKregs .unknown frame oracle []
 
 /-- the access list of a run -/
 def accesses (p : Prog) (frame : List (Nat × Val)) (argBytes : Nat) (oracle : List Bool) (fuel : Nat) :
@@ -748,14 +832,17 @@ def matchesModel (p : Prog) (frame : List (Nat × Val)) (argBytes : Nat) (oracle
 /-! ## Soundness of the Boolean comparisons -/
 
 theorem Region.beq_eq {a b : Region} (h : a.beq b = true) : a = b := by
-  cases a <;> cases b <;> simp [Region.beq] at h <;> simp [h]
+  cases a <;> cases b <;> simp only [Region.beq] at h <;>
+    first | (rw [Nat.eq_of_beq_eq_true h]) | (exact absurd h (by decide))
 
 theorem Access.beq_eq {a b : Access} (h : a.beq b = true) : a = b := by
   cases a with | mk r o w k => cases b with | mk r' o' w' k' =>
   simp only [Access.beq, Bool.and_eq_true, beq_iff_eq] at h
   obtain ⟨⟨⟨h1, h2⟩, h3⟩, h4⟩ := h
   have h1' : r = r' := Region.beq_eq h1
-  subst h1'; subst h2; subst h3; subst h4; rfl
+  have h2' : o = o' := Nat.eq_of_beq_eq_true h2
+  have h3' : w = w' := Nat.eq_of_beq_eq_true h3
+  subst h1'; subst h2'; subst h3'; subst h4; rfl
 
 theorem beqList_eq : ∀ {l m : List Access}, beqList l m = true → l = m
   | [], [], _ => rfl
